@@ -102,6 +102,13 @@ CLAIMED["C05"] = dict(
     design_ref="§5 C05",
 )
 
+CLAIMED["C06"] = dict(
+    category="exploration",
+    technique="bounded-exhaustive enumeration of all pure records, a Peng-Robinson parameter lattice and all hydrocarbon pairs x compositions; criticality and spinodal conditions recomputed outside the solver",
+    text="For every pure record the critical point from the default start, from six initial temperatures and the physical one are checked for vanishing scaled dp/dV and d2p/dV2 at positive pressure, spinodals on a T_r lattice for dp/dV = 0, bracketing of the critical density and position inside the binodal; on a 6x6x6 Peng-Robinson lattice the critical point must coincide with the parameters; for all hydrocarbon pairs the smallest eigenvalue of the scaled composition Hessian and the third directional derivative along its eigenvector are recomputed from State getters (own eigen-solver, Richardson difference), binary critical points at given T / p must echo the specification, mixture spinodals and PhaseDiagram::spinodal must have a vanishing eigenvalue.",
+    design_ref="§5 C06",
+)
+
 NOT_YET = "check not built yet (work in progress; see DESIGN.md §9 build order) - not a claim that the technique cannot apply"
 
 ALL = ["C%02d" % i for i in range(1, 21)]
